@@ -28,7 +28,7 @@ func GenHandoffWorld(t *rapid.T, pf Profile) *World {
 		g := &w.Groups[gi]
 		for pi := range g.Pods {
 			p := &g.Pods[pi]
-			if p.State != "pending" || p.Fraction != "" || p.GPUMemory != 0 || !chance(t, 3, "rawBindRequest") {
+			if p.State != "pending" || p.Fraction != "" || p.GPUMemory != 0 || len(p.Claims) > 0 || !chance(t, 3, "rawBindRequest") {
 				continue
 			}
 			rb := RawBindRequest{Pod: p.Name}
@@ -73,6 +73,7 @@ type taskView struct {
 func JudgeHandoff(w *World) *Verdict {
 	var mu sync.Mutex
 	views := map[int]map[string]taskView{}
+	allocatedDevices := map[int]map[string]bool{}
 	opt := &Options{Hooks: Hooks{AfterOpen: func(ssn *framework.Session, cycle int) {
 		v := map[string]taskView{}
 		for _, job := range ssn.ClusterInfo.PodGroupInfos {
@@ -89,8 +90,17 @@ func JudgeHandoff(w *World) *Verdict {
 				v[t.Name] = tv
 			}
 		}
+		devs := map[string]bool{}
+		if k8sPlugins := ssn.InternalK8sPlugins(); k8sPlugins != nil && k8sPlugins.FrameworkHandle != nil && k8sPlugins.FrameworkHandle.SharedDRAManager() != nil {
+			if ad, err := k8sPlugins.FrameworkHandle.SharedDRAManager().ResourceClaims().ListAllAllocatedDevices(); err == nil {
+				for id := range ad {
+					devs[id.String()] = true
+				}
+			}
+		}
 		mu.Lock()
 		views[cycle] = v
+		allocatedDevices[cycle] = devs
 		mu.Unlock()
 	}}}
 	h := Run(w, opt)
@@ -102,7 +112,7 @@ func JudgeHandoff(w *World) *Verdict {
 			v.Findings = append(v.Findings, Finding{Sig: sig, Msg: fmt.Sprintf(format, a...), Cycle: cycle})
 		}
 	}
-	live, gone, terminal, liveWithNeighbour := 0, 0, 0, 0
+	live, gone, terminal, liveWithNeighbour, liveWithClaims := 0, 0, 0, 0, 0
 	for ci, rec := range h.Cycles {
 		if rec.OpenErr != "" || rec.Panic != "" || rec.Hung || rec.Starved || rec.After == nil {
 			continue
@@ -163,6 +173,17 @@ func JudgeHandoff(w *World) *Verdict {
 				if len(want) > 0 && strings.Join(want, ",") != strings.Join(got, ",") {
 					add(ci, "c12-live-request-gpu-groups-not-charged", "BindRequest %s selects GPU groups %v, the snapshot charges pod %s to %v", br.Name, want, br.Spec.PodName, got)
 				}
+				for _, ca := range br.Spec.ResourceClaimAllocations {
+					if ca.Allocation == nil {
+						continue
+					}
+					liveWithClaims++
+					for _, r := range ca.Allocation.Devices.Results {
+						if id := r.Driver + "/" + r.Pool + "/" + r.Device; !allocatedDevices[ci][id] {
+							add(ci, "c12-live-request-claim-devices-not-charged", "BindRequest %s carries device %s for claim %s; the snapshot's DRA manager does not count that device as allocated (allocated: %v)", br.Name, id, ca.Name, keysOf(allocatedDevices[ci]))
+						}
+					}
+				}
 				if _, still := afterBR[br.Name]; !still {
 					add(ci, "c12-live-request-deleted", "BindRequest %s (phase %q, attempts %d, limit %s, node %s exists) is not terminal but was deleted during the cycle", br.Name, br.Status.Phase, br.Status.FailedAttempts, limitStr(br.Spec.BackoffLimit), br.Spec.SelectedNode)
 				}
@@ -180,6 +201,9 @@ func JudgeHandoff(w *World) *Verdict {
 	if liveWithNeighbour > 0 {
 		v.Classes = append(v.Classes, "live-request-while-node-receives-pods")
 	}
+	if liveWithClaims > 0 {
+		v.Classes = append(v.Classes, "live-request-with-dra-claim")
+	}
 	if gone > 0 {
 		v.Classes = append(v.Classes, "request-for-vanished-node")
 	}
@@ -195,4 +219,13 @@ func limitStr(l *int32) string {
 		return "none"
 	}
 	return fmt.Sprint(*l)
+}
+
+func keysOf(m map[string]bool) []string {
+	out := make([]string, 0, len(m))
+	for k := range m {
+		out = append(out, k)
+	}
+	sort.Strings(out)
+	return out
 }
